@@ -86,17 +86,27 @@ func vfH_C11_accept_once() {
 // (3) same address, different conversation id: ignored unless it starts a conversation
 // (sn == 0), which replaces the old session with a fresh one — never merged.
 func vfH_C11_conv_mismatch() {
-	pr := vfConnect(vfCipherNil, 0, 0, 1)
+	d, p := vfPickFEC()
+	pr := vfConnect(vfCipherNil, d, p, 1)
 	vfAssert("connect/accepted", pr.srv != nil)
 	old := pr.srv
 	vfReach("connected")
-	dg := vfBytes("dg", []int{24, 27, 30}[vfPick("dg_n", 0, 2)])
-	conv := binary.LittleEndian.Uint32(dg)
-	sn := binary.LittleEndian.Uint32(dg[IKCP_SN_OFFSET:])
+	hdr := 0
+	if d > 0 {
+		hdr = fecHeaderSizePlus2 // the segment travels behind an FEC data header
+	}
+	dg := vfBytes("dg", hdr+[]int{24, 27, 30}[vfPick("dg_n", 0, 2)])
+	if d > 0 {
+		binary.LittleEndian.PutUint16(dg[4:], typeData)
+	}
+	conv := binary.LittleEndian.Uint32(dg[hdr:])
+	sn := binary.LittleEndian.Uint32(dg[hdr+IKCP_SN_OFFSET:])
 	vfAssume(conv != old.kcp.conv)
-	// not an FEC/OOB type marker at offset 4 (FEC is off on this listener's peer)
-	flag := binary.LittleEndian.Uint16(dg[4:])
-	vfAssume(vfAnd(flag != typeData, vfAnd(flag != typeParity, flag != typeOOB)))
+	if d == 0 {
+		// not an FEC/OOB type marker at offset 4 (FEC is off on this listener's peer)
+		flag := binary.LittleEndian.Uint16(dg[4:])
+		vfAssume(vfAnd(flag != typeData, vfAnd(flag != typeParity, flag != typeOOB)))
+	}
 	rq0, rn0 := old.kcp.rcv_queue.Len(), old.kcp.rcv_nxt
 	vfJournalStart(pr.l, old)
 	pr.l.packetInput(dg, vfClientAddr)
@@ -113,6 +123,11 @@ func vfH_C11_conv_mismatch() {
 			vfAssert("c11/new-session-has-the-new-conv", nw.kcp.conv == conv)
 			vfAssert("c11/new-session-starts-empty", vfAnd(nw.kcp.rcv_nxt <= 1, nw.kcp.snd_nxt == 0))
 			vfAssert("c11/one-accept-for-the-new-conversation", len(pr.l.chAccepts) == 1)
+			// the application still holds the replaced session and closes it late (the usual
+			// deferred Close after Read failed): that must not unregister or disturb its successor
+			err := old.Close()
+			vfAssert("c11/late-close-of-replaced-session-reports-already-closed", err != nil)
+			vfAssert("c11/late-close-of-replaced-session-keeps-its-successor", vfAnd(pr.l.sessions[string(vfClientAddr)] == nw, !nw.isClosed()))
 		}
 	}
 }
